@@ -12,6 +12,11 @@
 (*                  braces, unfolding one level per rendering pass         *)
 (*    opaque        a value the model does not follow (function applied to *)
 (*                  unrendered template text, undocumented binding)        *)
+(*    bad           invalid template syntax (an unclosed action): an error *)
+(*                  as soon as a pass meets it, never a returned value     *)
+(* A var / pipe token stands for ANY spelling of the same action (see      *)
+(* Spellings): blanks inside the delimiters, trim markers, function-call   *)
+(* form, {{with}}, {{if}}, a template variable, a comment next to it.      *)
 (*                                                                         *)
 (* config.go:685-696  the data is bound ONCE: every variable to a plain    *)
 (*   string, except StructName which is bound to the *unrendered* text of  *)
@@ -42,6 +47,7 @@ Var(v)      == [k |-> "var", v |-> v]
 Pipe(v, f)  == [k |-> "pipe", v |-> v, f |-> f]
 Q(body)     == [k |-> "q", body |-> body]
 Opaque      == [k |-> "opaque"]
+Bad         == [k |-> "bad"]           \* an unclosed action: text/template cannot parse the value
 UNSPECVAL   == "%UNSPEC%"
 
 PipeKey(v, f) == v \o "__" \o f
@@ -59,6 +65,7 @@ RenderTok(t, data, sraw) ==
                          ELSE <<Lit(data[PipeKey(t.v, t.f)])>>
     [] t.k = "q"      -> t.body
     [] t.k = "opaque" -> <<t>>
+    [] t.k = "bad"    -> <<t>>
 
 RECURSIVE Flatten(_, _, _)
 Flatten(ts, data, sraw) ==
@@ -83,8 +90,13 @@ Text(ts) ==
   IF Len(ts) = 0 THEN ""
   ELSE (CASE ts[1].k = "lit" -> ts[1].s
           [] ts[1].k = "var" -> "{{." \o ts[1].v \o "}}"
+          [] ts[1].k = "bad" -> "%BAD%"
           [] OTHER -> "%OPAQUE%") \o Text(Tail(ts))
 
+HasBad(ts)    == \E j \in 1..Len(ts) : ts[j].k = "bad"            \* at top level: inside a quote it is still text
+AnyBad(vs)    == \E p \in Params : HasBad(vs[p])
+\* the spellings the harness may use for one and the same var / pipe token (the choice never changes the outcome)
+Spellings == {"compact", "spaced", "trim", "call", "with", "if", "var", "comment", "paren"}
 HasOpaque(ts) == \E j \in 1..Len(ts) : ts[j].k = "opaque"
 IsPlain(ts)   == \A j \in 1..Len(ts) : ts[j].k \in {"lit", "var"}
 
@@ -98,7 +110,8 @@ RECURSIVE Iterate(_, _, _, _)
 \* number of changing passes until stable, looking at most `fuel` passes ahead; -1 = no fixpoint seen
 Iterate(vs, data, sraw, fuel) ==
   LET nx == RenderAll(vs, data, sraw) IN
-  IF nx = vs THEN [n |-> 0, vals |-> vs]
+  IF AnyBad(vs) THEN [n |-> -1, vals |-> vs]              \* cannot be parsed: no pass, no fixpoint
+  ELSE IF nx = vs THEN [n |-> 0, vals |-> vs]
   ELSE IF fuel = 0 THEN [n |-> -1, vals |-> vs]
   ELSE LET r == Iterate(nx, data, sraw, fuel - 1) IN
        IF r.n = -1 THEN r ELSE [n |-> r.n + 1, vals |-> r.vals]
@@ -155,7 +168,7 @@ EndPass == pc' = "top" /\ i' = i + 1
 
 \* one parameter, any order
 RenderOne(p) ==
-  /\ pc = "render" /\ Interleave /\ p \in pending
+  /\ pc = "render" /\ Interleave /\ p \in pending /\ ~AnyBad(vals)
   /\ LET nv == Render(vals[p], case.impl, SRaw(case)) IN
        /\ vals' = [vals EXCEPT ![p] = nv]
        /\ changed' = (changed \/ nv # vals[p])
@@ -165,14 +178,20 @@ RenderOne(p) ==
 
 \* the whole pass at once (the parameters do not influence each other within a pass)
 RenderPass ==
-  /\ pc = "render" /\ ~Interleave
+  /\ pc = "render" /\ ~Interleave /\ ~AnyBad(vals)
   /\ vals' = RenderAll(vals, case.impl, SRaw(case))
   /\ changed' = (vals' # vals)
   /\ pending' = {}
   /\ EndPass
   /\ UNCHANGED case
 
-Next == Top \/ RenderPass \/ \E p \in Params : RenderOne(p)
+\* config.go:728-731  template.Parse fails: the call returns that error (no ResolveLoop, no value)
+ParseError ==
+  /\ pc = "render" /\ AnyBad(vals)
+  /\ pc' = "err"
+  /\ UNCHANGED <<case, vals, i, changed, pending>>
+
+Next == Top \/ RenderPass \/ ParseError \/ \E p \in Params : RenderOne(p)
 
 
 -----------------------------------------------------------------------------
